@@ -1,4 +1,5 @@
 import Model.C16
+import Model.C16Partition
 import Std.Data.TreeMap
 /-!
 Oracle handlers for C16: model output (correspondence) and judge (property on impl output).
@@ -8,7 +9,7 @@ Lines (3 input fields each, `-` = unused):
 * `C16.inst  zone n -          | obs`            generateAllTokens for instance n
 * `C16.gen   zone,n req taken  | all512 obs`     SpreadMinimizingTokenGenerator.GenerateTokens
 * `C16.map   zone n -          | lists`          the whole tokensByInstanceID map (generation order)
-* `C16.part  ids - -           | lists`          PartitionRingDesc after AddPartition of ids
+* `C16.part  ops - -           | entries`        PartitionRingDesc after `A:id:state:now` (AddPartition) / `S:id` (seeded entry) ops
 * `C16.calc  token prev opt    | obs`            calculateNewToken
 * `C16.opt   i curr remaining  | obs`            optimalTokenOwnership(2^32/(i+1), curr, remaining)
 * `C16.less  oi,ki oj,kj -     | bool`           ownershipPriorityQueue.Less
@@ -190,15 +191,56 @@ def judgeMap (z n : Nat) (lists : List (List Nat)) : List String × Nat := Id.ru
   | none => pure ()
   return (bad, worst)
 
-def judgePart (ids : List Nat) (lists : List (List Nat)) : List String := Id.run do
+/-- partitions written by AddPartition: 512 tokens each, sorted, no token shared. `added` = ids
+with an `A` op, `entries` = (id, tokens) of the implementation's descriptor. -/
+def judgePart (added : List Int) (entries : List (Int × List Nat)) : List String := Id.run do
   let mut bad : List String := []
-  let distinct := (mkSet ids).keys
-  if lists.length != distinct.length then bad := "wrong-partition-count" :: bad
-  if lists.any (fun l => l.length != 512) then bad := "not-512-tokens" :: bad
-  if lists.any (fun l => !strictlySorted l) then bad := "not-sorted-or-duplicate" :: bad
-  let all := lists.flatten
+  let mine := entries.filter (fun e => added.contains e.1)
+  if added.any (fun id => !(entries.any (fun e => e.1 == id))) then bad := "partition-missing" :: bad
+  if mine.any (fun e => e.2.length != 512) then bad := "not-512-tokens" :: bad
+  if mine.any (fun e => !strictlySorted e.2) then bad := "not-sorted-or-duplicate" :: bad
+  let all := (mine.map (·.2)).flatten
   if (mkSet all).size != all.length then bad := "token-shared-by-partitions" :: bad
   return bad
+
+inductive POp where
+  | add (id : Int) (st : Nat) (now : Int)
+  | seed (id : Int)
+
+def parsePOp (s : String) : Option POp :=
+  match s.splitOn ":" with
+  | ["S", id] => id.toInt?.map POp.seed
+  | ["A", id, st, now] =>
+    match id.toInt?, st.toNat?, now.toInt? with
+    | some id, some st, some now => some (.add id st now)
+    | _, _, _ => none
+  | _ => none
+
+def seededPart (id : Int) : C14.Part :=
+  { id := id, state := 3, stateTs := 7, locked := true, lockedTs := 5, tokens := [1, 2, 3] }
+
+/-- `addPartition` with the tokens taken from the memoised stream (ids above 6). -/
+def addPartitionMemo (d : C14.PDesc) (id : Int) (st : Nat) (now : Int) : Except Err C14.PDesc :=
+  if id < 0 then .error .panic
+  else match (allTokensAt 0 id.toNat).map (pickFree [] optimalTokensPerInstance) with
+    | .error _ => .error .panic
+    | .ok ts => .ok { d with parts := C15.setPart { id := id, state := st, stateTs := now, tokens := ts } d.parts }
+
+def runPOps (ops : List POp) : Except Err C14.PDesc :=
+  ops.foldlM (fun d op => match op with
+    | .seed id => pure { d with parts := C15.setPart (seededPart id) d.parts }
+    | .add id st now => if id ≤ 6 then addPartition d id st now else addPartitionMemo d id st now) {}
+
+def showPart (p : C14.Part) : String :=
+  s!"{p.id}/{p.state}/{p.stateTs}/{if p.locked then 1 else 0}/{p.lockedTs}/{showToks p.tokens}"
+
+def parseEntry (s : String) : Option (Int × List Nat) :=
+  match s.splitOn "/" with
+  | [id, _, _, _, _, toks] =>
+    match id.toInt?, natList? toks with
+    | some id, some ts => some (id, ts)
+    | _, _ => none
+  | _ => none
 
 /-! ### handlers -/
 
@@ -270,26 +312,30 @@ def handleMap (f : List String) : String × String × String :=
       let (judge, worst) := match parseLists obs with
         | some lists => let (b, w) := judgeMap z n lists; (judgeStr b, w)
         | none => ("generation-failed", 0)
-      (diff, judge, s!"kind=map n={n} modelSideCondFired={degen} worstPrefixSpread={worst / 1000}.{worst % 1000 / 100}{worst % 100 / 10}{worst % 10}%")
+      let maxTok := if z != 0 then "n/a" else match parseLists obs with
+        | some lists => if lists.any (fun l => l.contains 4294967288) then "present" else "absent"
+        | none => "n/a"
+      (diff, judge, s!"kind=map n={n} modelSideCondFired={degen} zone0MaxTokenValue={maxTok} worstPrefixSpread={worst / 1000}.{worst % 1000 / 100}{worst % 100 / 10}{worst % 10}%")
     | _, _ => ("bad-input", "-", "-")
   | _ => ("bad-fields", "-", "-")
 
 def handlePart (f : List String) : String × String × String :=
   match f with
-  | [idss, _, _, obs] =>
-    match natList? idss with
-    | some ids =>
-      let distinct := (mkSet ids).keys
-      let m := match distinct.mapM (fun id =>
-          if id ≤ 6 then partitionTokens id
-          else (allTokensAt 0 id).map (pickFree [] optimalTokensPerInstance)) with
-        | .ok ls => showLists ls
+  | [opss, _, _, obs] =>
+    match (opss.splitOn ",").mapM parsePOp with
+    | some ops =>
+      let m := match runPOps ops with
+        | .ok d => ";".intercalate (d.parts.map showPart)
         | .error e => "err:" ++ e.name
       let diff := if m == obs then "-" else "model-partitions-differ"
-      let judge := match parseLists obs with
-        | some lists => judgeStr (judgePart ids lists)
-        | none => "generation-failed"
-      (diff, judge, s!"kind=part maxid={idClass (distinct.foldl max 0)}")
+      let added := ops.filterMap (fun op => match op with | .add id _ _ => some id | .seed _ => none)
+      let judge :=
+        if obs.startsWith "err:" then (if added.any (· < 0) then "-" else "generation-failed")
+        else match (obs.splitOn ";").mapM parseEntry with
+          | some entries => judgeStr (judgePart added entries)
+          | none => "unparsable"
+      let maxid := (added.map Int.toNat).foldl max 0
+      (diff, judge, s!"kind=part big={decide (maxid > 16)} seeded={ops.any (fun op => match op with | .seed _ => true | _ => false)} neg={added.any (· < 0)}")
     | none => ("bad-input", "-", "-")
   | _ => ("bad-fields", "-", "-")
 
